@@ -117,5 +117,37 @@ fn main() {
             other => println!("C18-REPLAY MISMATCH case=option candidates for {words:?}: got {other:?}, expected {want:?}"),
         }
     }
+    // after `--opt=value` / `-ovalue` the option is complete: the next word starts a new argument
+    let cli2 = || {
+        Command::new("prog")
+            .arg(Arg::new("format").long("format").short('f').action(ArgAction::Set).value_parser(["json", "yaml"]))
+            .arg(Arg::new("verbose").long("verbose").action(ArgAction::SetTrue))
+    };
+    let comp2 = |words: &[&str]| -> Result<Vec<String>, String> {
+        let args: Vec<OsString> = std::iter::once("prog").chain(words.iter().copied()).map(OsString::from).collect();
+        let idx = args.len() - 1;
+        std::panic::catch_unwind(move || {
+            let mut cmd = cli2();
+            let mut v: Vec<String> = clap_complete::engine::complete(&mut cmd, args, idx, None)
+                .map(|c| c.into_iter().map(|c| c.get_value().to_string_lossy().into_owned()).collect())
+                .unwrap_or_default();
+            v.sort();
+            v
+        })
+        .map_err(|_| "panic".to_string())
+    };
+    for (words, want) in [
+        (vec!["--format=json", "--v"], vec!["--verbose"]),
+        (vec!["-fjson", "--v"], vec!["--verbose"]),
+        (vec!["--format", "json", "--v"], vec!["--verbose"]),
+        (vec!["--format", "j"], vec!["json"]),
+        (vec!["-f", "y"], vec!["yaml"]),
+    ] {
+        n += 1;
+        match comp2(&words) {
+            Ok(v) if v == want => {}
+            other => println!("C18-REPLAY MISMATCH case=candidates after a completed / pending option {words:?}: got {other:?}, expected {want:?}"),
+        }
+    }
     println!("C18-REPLAY DONE {n} cases");
 }
